@@ -6,25 +6,39 @@ from . import gcx
 ID = "C01"
 LEVEL = "exploration"
 BUDGET = {"quick": 1000, "thorough": 240000}
-RULE = ("case = history over a shadow heap graph, executed in a fresh Cello Thread: objects of every representation (plain "
-        "struct with 4 pointer fields, Ref, Box, Array<Ref>, List<Ref>, Table<Int,Ref>, Table<Ref,Ref> keys+values, "
-        "Tree<Int,Ref>, heap Tuple; malloc'd and arena-allocated), pointer stores and removals chosen among reachable objects "
-        "(so cycles, self references, diamonds and mixed-representation paths arise), roots of three kinds (stack slot, "
-        "root-registered holder object, thread-local entry), root drops, explicit deletions, container bulk growth/shrink "
-        "with live edges, chains of up to 400 links through fields / Ref objects / Lists, forced collections (always twice in "
-        "a row) and churn (threshold collections). Oracle (one-directional, as conservative scanning requires): after every "
-        "collection every object the shadow graph reaches from the shadow roots is not finalised, its canary is intact, it is "
-        "still registered, and containers still hold exactly the shadow contents; the collection returns. A separate ladder "
-        "collects chains of 10^2..10^5 links. non-trivial = a collection finalised >= 1 object while >= 1 surviving object was "
-        "reachable only at distance >= 2 or from a non-stack root. distinct = distinct case JSON.")
+RULE = ("case = history over a shadow heap graph, executed in a fresh Cello Thread (7 of 8) or in a fresh process' main thread "
+        "(collector set up by the main macro): objects of every representation (plain structs with 4 pointer fields of 48 bytes, "
+        "52 bytes and 1 MiB - the latter with pointer fields in its first and its last words -, a type of size 0 as a target, "
+        "Ref, Box, Array<Ref>, List<Ref>, Table<Int,Ref>, Table<Ref,Ref> and Tree<Ref,Ref> keys+values, Tree<Int,Ref>, heap "
+        "Tuple, a not-started Thread object holding thread-local entries; malloc'd and arena-allocated; obtained from new, "
+        "from alloc without a constructor call, or from copy() of a reachable struct / Ref / whole container), holders built "
+        "directly or retyped from containers of scalars, pointer stores and removals chosen among reachable objects through "
+        "push / push_at / set on an index / set on a key, pop / pop_at / rem / resize 0 (so cycles, self references, diamonds "
+        "and mixed-representation paths arise), roots of three kinds (stack slot, root-registered holder of ANY of these "
+        "kinds, thread-local entry), root drops, explicit deletions, container bulk growth/shrink with live edges, chains of "
+        "up to 400 links through fields / Ref objects / Lists, forced collections (always twice in a row), churn (threshold "
+        "collections) and allocations of every kind made exactly when the registry is at its threshold, so that the "
+        "collection runs inside alloc() on the not yet constructed object. Oracle (one-directional, as conservative scanning "
+        "requires): after every collection every object the shadow graph reaches from the shadow roots is not finalised, "
+        "its canary is intact, it is still registered, and containers still hold exactly the shadow contents; the collection "
+        "returns. A separate ladder collects chains of 10^2..10^5 links. non-trivial = a collection finalised >= 1 object "
+        "while >= 1 surviving object was reachable only at distance >= 2 or from a non-stack root. distinct = distinct case JSON.")
 ASSUMPTIONS = ["nothing is asserted about unreachable objects (the conservative scan may retain them)",
                "a Box is the unique edge to its target; objects are deleted explicitly only when nothing points at them",
-               "chains in generated cases stay below the recursion-depth finding (deep-chain ladder reproduces it separately)"]
+               "chains in generated cases stay below the recursion-depth finding (deep-chain ladder reproduces it separately)",
+               "raw objects and objects allocated while the collector is stopped never lie on a path (the collector does not trace through unregistered plain structs; documented as the user's duty)",
+               "a Thread object used as a holder is never started (tracing the storage of a running thread is the C13 finding)",
+               "size-0 objects are never copied (copy of a type without Assign and of size 0 raises TypeError)"]
 
 prepare = gcx.prepare
 
-NODEK = ("node", "nodea")
-CONT = ("arr", "lst", "tab", "tre", "tup", "tabr")
+NODEK = ("node", "nodea", "nodeb", "nodeo")      # instrumented holders with 4 pointer fields (48 bytes, arena, 1 MiB, 52 bytes)
+LEAFK = ("nodez",)                               # instrumented object of size 0: can only be pointed at
+SEQ = ("arr", "lst", "tup")
+MAPI = ("tab", "tre", "thr")                     # keyed by a small integer (thr: thread-local entries of a Thread object)
+MAPR = ("tabr", "trer")                          # keys are references too
+CONT = SEQ + MAPI + MAPR
+IDLIM = 200000                                   # handles of bulk objects (churn, chains, fill) stay below the ledger size
 
 
 class Shadow:
@@ -42,21 +56,30 @@ class Shadow:
         self.cls[h] = cls
         if kind in NODEK:
             self.fields[h] = [None] * 4
+        elif kind in LEAFK:
+            self.fields[h] = []
         elif kind in ("ref", "box"):
             self.fields[h] = [target]
-        elif kind in ("arr", "lst", "tup"):
+        elif kind in SEQ:
             self.fields[h] = []
         else:
             self.fields[h] = {}
         if cls == "root":
             self.rootobjs.add(h)
 
+    def copy(self, h, src):
+        """h = copy(src): same type, same targets (plain structs are copied bytewise, Ref and the containers element-wise)"""
+        self.kind[h] = self.kind[src]
+        self.cls[h] = "m"
+        f = self.fields[src]
+        self.fields[h] = dict(f) if isinstance(f, dict) else list(f)
+
     def succ(self, h):
         f = self.fields[h]
         k = self.kind[h]
-        if k in ("tab", "tre"):
+        if k in MAPI:
             return [t for t in f.values() if t is not None]
-        if k == "tabr":
+        if k in MAPR:
             return [t for kv in f.items() for t in kv if t is not None]
         return [t for t in f if t is not None]
 
@@ -134,7 +157,7 @@ def _case(draw):
 
     def store(s, t):
         k = S.kind[s]
-        if t in boxed or (k == "box"):
+        if t in boxed or (k == "box") or k in LEAFK:
             return
         if k in NODEK:
             i = draw(st.integers(0, 3))
@@ -143,16 +166,27 @@ def _case(draw):
         elif k == "ref":
             S.fields[s][0] = t
             ops.append(["store", s, 0, t])
-        elif k in ("arr", "lst", "tup"):
-            if k == "tup" and (t in S.fields[s]):
+        elif k in SEQ:
+            f = S.fields[s]
+            if k == "tup" and (t in f):
                 return                    # a tuple never holds one pointer twice (C11 finding)
-            S.fields[s].append(t)
-            ops.append(["store", s, 0, t])
-        elif k in ("tab", "tre"):
+            how = draw(st.sampled_from(["push", "push", "push", "pushat", "setat"]))
+            if how == "pushat" and f:
+                i = draw(st.integers(0, len(f) - 1))          # insert before element i (push_at needs an existing index)
+                f.insert(i, t)
+                ops.append(["pushat", s, i, t])
+            elif how == "setat" and f and k != "tup":
+                i = draw(st.integers(0, len(f) - 1))          # overwrite element i
+                f[i] = t
+                ops.append(["setat", s, i, t])
+            else:
+                f.append(t)
+                ops.append(["store", s, 0, t])
+        elif k in MAPI:
             key = draw(st.integers(0, 12))
             S.fields[s][key] = t
             ops.append(["store", s, key, t])
-        elif k == "tabr":
+        elif k in MAPR:
             R = reachable()
             keyobj = draw(st.sampled_from(R)) if R else t
             if keyobj in boxed:
@@ -160,21 +194,72 @@ def _case(draw):
             S.fields[s][keyobj] = t
             ops.append(["store", s, keyobj, t])
 
+    nbig = [0]
+
+    def node_kind():
+        k = draw(st.sampled_from(["node", "node", "node", "nodea", "nodea", "nodeo", "nodez", "nodeb"]))
+        if k == "nodeb":
+            if nbig[0] >= 2:
+                return "node"
+            nbig[0] += 1
+        return k
+
+    def new_obj(h, kind, cls="m"):
+        """emit the allocation of a fresh object of any kind but box (targets of Ref must be reachable)"""
+        if kind == "ref":
+            R = [x for x in reachable() if x not in boxed]
+            if not R:
+                kind = "node"
+            else:
+                t = draw(st.sampled_from(R))
+                S.new(h, "ref", cls, t)
+                ops.append(["new", h, "ref", cls, t])
+                return
+        S.new(h, kind, cls)
+        if kind == "nodea":
+            # arena object at an address aimed at a residue class of the registry (last slot, a shared home slot)
+            ops.append(["new", h, kind, cls, draw(st.sampled_from([-1, -2, -2, 0, 1, 3]))])
+        elif kind in NODEK + LEAFK:
+            # new(...) or alloc(...) without a constructor call
+            ops.append(["alloc" if draw(st.integers(0, 5)) == 0 else "new", h, kind, cls])
+        else:
+            # the holder is constructed with its element types, or first as a container of scalars that is then
+            # assigned / copied from an empty container of the wanted types (its element types change afterwards)
+            rt = draw(st.sampled_from([0, 0, 1, 2, 3])) if kind not in ("tup", "thr") else 0
+            ops.append(["new", h, kind, cls] + (["retype%d" % rt] if rt else []))
+
     n = draw(st.integers(4, 45))
     for _ in range(n):
-        o = draw(st.sampled_from(["new", "new", "new", "newc", "newp", "store", "store", "store", "unstore", "unroot", "del",
-                                  "collect", "collect", "churn", "bulk", "chain", "box", "cycle", "rootobj", "cluster", "cluster"]))
+        o = draw(st.sampled_from(["new", "new", "new", "newc", "newc", "newp", "store", "store", "store", "store", "unstore", "unstore",
+                                  "unroot", "del", "collect", "collect", "churn", "bulk", "chain", "box", "cycle", "rootobj", "rootobj",
+                                  "cluster", "cluster", "copy", "copy", "fillnew", "fillnew"]))
         R = reachable()
         if o == "new":
             h = fresh()
-            kind = draw(st.sampled_from(["node", "node", "nodea"]))
-            S.new(h, kind, "m")
-            if kind == "nodea":
-                # arena object at an address aimed at a residue class of the registry (last slot, a shared home slot)
-                ops.append(["new", h, kind, "m", draw(st.sampled_from([-1, -2, -2, 0, 1, 3]))])
-            else:
-                ops.append(["new", h, kind, "m"])
+            new_obj(h, node_kind())
             attach(h)
+        elif o == "fillnew" and big[0] + 700 < IDLIM:
+            # the registry is filled up to its collection threshold, so the next allocation runs a collection inside
+            # alloc(), i.e. while the new object of this kind exists but is not constructed yet
+            kind = draw(st.sampled_from(list(CONT) + ["node", "nodeo", "nodez", "ref"]))
+            ops.append(["fill", big[0], 600])
+            big[0] += 600
+            h = fresh()
+            new_obj(h, kind)
+            attach(h)
+            ops.append(["check"])
+        elif o == "copy" and R:
+            # copy() of a reachable object: a plain struct, a Ref or a whole container; the copy shares the targets
+            srcs = [x for x in R if S.kind[x] in NODEK + CONT + ("ref",) and x not in boxed
+                    and (S.kind[x] != "nodeb" or nbig[0] < 2) and len(S.fields[x]) <= 60]
+            if srcs:
+                src = draw(st.sampled_from(srcs))
+                if S.kind[src] == "nodeb":
+                    nbig[0] += 1
+                h = fresh()
+                S.copy(h, src)
+                ops.append(["copy", h, src])
+                attach(h)
         elif o == "cluster":
             # a probe cluster in the registry (same home slot, preferably the last slot so that it wraps around)
             # made of reachable and unreachable objects and a root holder, then an explicit deletion inside the
@@ -222,12 +307,7 @@ def _case(draw):
             ops.append(["check"])
         elif o == "newc":
             h = fresh()
-            kind = draw(st.sampled_from(CONT))
-            S.new(h, kind, "m")
-            # the holder is constructed with its element types, or first as a container of scalars that is then
-            # assigned / copied from an empty container of the wanted types (its element types change afterwards)
-            rt = draw(st.sampled_from([0, 0, 1, 2, 3])) if kind != "tup" else 0
-            ops.append(["new", h, kind, "m"] + (["retype%d" % rt] if rt else []))
+            new_obj(h, draw(st.sampled_from(CONT)))
             attach(h)
         elif o == "newp" and R:
             t = draw(st.sampled_from(R))
@@ -238,9 +318,9 @@ def _case(draw):
             ops.append(["new", h, "ref", "m", t])
             attach(h)
         elif o == "rootobj":
+            # a root-registered holder: a plain struct or any of the containers / a Ref (new_root / alloc_root)
             h = fresh()
-            S.new(h, "node", "root")
-            ops.append(["new", h, "node", "root"])
+            new_obj(h, draw(st.sampled_from(["node", "node", "nodeo", "ref"] + list(CONT))), "root")
         elif o == "box":
             # box -> fresh target; the box is the target's only edge
             t = fresh()
@@ -276,14 +356,18 @@ def _case(draw):
             elif k == "ref":
                 f[0] = None
                 ops.append(["unstore", s, 0])
-            elif k in ("arr", "lst", "tup") and f:
-                f.pop()
-                ops.append(["unstore", s, 0])
-            elif k in ("tab", "tre") and f:
-                key = draw(st.sampled_from(sorted(f)))
-                del f[key]
-                ops.append(["unstore", s, key])
-            elif k == "tabr" and f:
+            elif k in CONT and k != "thr" and f and draw(st.integers(0, 5)) == 0:
+                f.clear()                                   # resize(c, 0)
+                ops.append(["clear", s])
+            elif k in SEQ and f:
+                if draw(st.booleans()):
+                    f.pop()
+                    ops.append(["unstore", s, 0])
+                else:
+                    i = draw(st.integers(0, len(f) - 1))    # pop_at: front / middle / back
+                    f.pop(i)
+                    ops.append(["popat", s, i])
+            elif k in MAPI + MAPR and f:
                 key = draw(st.sampled_from(sorted(f)))
                 del f[key]
                 ops.append(["unstore", s, key])
@@ -320,7 +404,7 @@ def _case(draw):
             ops.append(["check"])
         elif o == "churn":
             cnt = draw(st.sampled_from([10, 40, 120]))
-            if big[0] + cnt < 39000:
+            if big[0] + cnt < IDLIM:
                 ops.append(["churn", big[0], cnt])
                 big[0] += cnt
                 ops.append(["check"])
@@ -349,7 +433,7 @@ def _case(draw):
                             S.fields[s].pop(1000 + j, None)
         elif o == "chain" and R:
             heads = [x for x in R if S.kind[x] in NODEK]
-            if heads and big[0] + 900 < 39000:
+            if heads and big[0] + 900 < IDLIM:
                 hd = draw(st.sampled_from(heads))
                 L = draw(st.sampled_from([5, 40, 150, 400]))
                 how = draw(st.integers(0, 2))
@@ -379,7 +463,8 @@ def _case(draw):
     # root holders must be deleted by hand before teardown
     for h in sorted(S.rootobjs):
         ops.append(["del", h])
-    return {"ops": ops, "cfg": draw(st.sampled_from(["asan", "plain"]))}
+    # mostly in a fresh Cello Thread; sometimes in a fresh process' main thread (collector set up by the main macro)
+    return {"ops": ops, "cfg": draw(st.sampled_from(["asan", "plain"])), "mode": draw(st.sampled_from(["thread"] * 7 + ["main"]))}
 
 
 def _reach_from(S, t):
@@ -423,11 +508,31 @@ def replay_model(case):
                 S.fields[s][k] = t
             elif kind in ("ref", "box"):
                 S.fields[s][0] = t
-            elif kind in ("arr", "lst", "tup"):
+            elif kind in SEQ:
                 S.fields[s].append(t)
             else:
                 S.fields[s][k] = t
             out.append(("store %d %d %d" % (s, k, t), None, None))
+        elif o == "pushat":
+            S.fields[op[1]].insert(op[2], op[3])
+            out.append(("pushat %d %d %d" % (op[1], op[2], op[3]), None, None))
+        elif o == "setat":
+            S.fields[op[1]][op[2]] = op[3]
+            out.append(("setat %d %d %d" % (op[1], op[2], op[3]), None, None))
+        elif o == "popat":
+            S.fields[op[1]].pop(op[2])
+            out.append(("popat %d %d" % (op[1], op[2]), None, None))
+        elif o == "clear":
+            S.fields[op[1]].clear()
+            out.append(("clear %d" % op[1], None, None))
+        elif o == "copy":
+            S.copy(op[1], op[2])
+            out.append(("copy %d %d" % (op[1], op[2]), None, None))
+        elif o == "alloc":
+            S.new(op[1], op[2], op[3])
+            out.append(("alloc %d %s %s" % (op[1], op[2], op[3]), None, None))
+        elif o == "fill":
+            out.append(("fill %d %d" % (op[1], op[2]), None, None))
         elif o == "unstore":
             s, k = op[1], op[2]
             kind = S.kind[s]
@@ -435,7 +540,7 @@ def replay_model(case):
                 S.fields[s][k] = None
             elif kind == "ref":
                 S.fields[s][0] = None
-            elif kind in ("arr", "lst", "tup"):
+            elif kind in SEQ:
                 S.fields[s].pop()
             else:
                 del S.fields[s][k]
@@ -512,11 +617,9 @@ def replay_model(case):
                 k = S.kind[h]
                 if k in CONT and len(S.fields[h]) <= 40:
                     f = S.fields[h]
-                    if k in ("arr", "lst", "tup"):
+                    if k in SEQ:
                         want = "[%s]" % ",".join(str(t) for t in f)
                         out.append(("dump %d" % h, "dump", want))
-                    elif k in ("tab", "tre"):
-                        out.append(("dump %d" % h, "dumpset", sorted("%d:%d" % (a, b) for a, b in f.items())))
                     else:
                         out.append(("dump %d" % h, "dumpset", sorted("%d:%d" % (a, b) for a, b in f.items())))
         else:
@@ -525,12 +628,18 @@ def replay_model(case):
 
 
 def run_case(ctx, case):
-    ex = gcx.executor(ctx, case["cfg"])
     prog, S = replay_model(case)
     lines = [p[0] for p in prog]
-    obs = ex.run("\n".join(lines), timeout=120)
+    mode = case.get("mode", "thread")
+    if mode == "main":
+        ex = ctx.executor("ex_gc_" + case["cfg"], args=["--main"])
+        obs = ex.run("\n".join(lines), fresh=True, timeout=120)
+        ex.close()
+    else:
+        ex = gcx.executor(ctx, case["cfg"])
+        obs = ex.run("\n".join(lines), timeout=120)
     gcx.check_harness(obs)
-    ev = ["cfg=" + case["cfg"]]
+    ev = ["cfg=" + case["cfg"], "mode=" + mode]
     if len(obs) != len(lines) + 1:
         at = max(0, len(obs) - 1)
         line = lines[at] if at < len(lines) else "?"
@@ -563,17 +672,25 @@ def run_case(ctx, case):
     if td is None or td["err"] != "[]":
         return Result("teardown/ledger problem: " + obs[-1], True, ev, None)
     for op in case["ops"]:
-        if op[0] == "new":
+        if op[0] in ("new", "alloc"):
             kinds.add("kind=" + op[2])
+            if op[3] == "root":
+                kinds.add("root-holder=" + op[2])
             if len(op) > 4 and str(op[4]).startswith("retype"):
                 kinds.add("holder-retyped")
-        elif op[0] in ("tls", "chain", "bulk"):
+            if op[0] == "alloc":
+                kinds.add("alloc-without-construct")
+        elif op[0] == "copy":
+            kinds.add("copy=" + S.kind[op[1]])
+        elif op[0] == "fill":
+            kinds.add("collection-inside-alloc")
+        elif op[0] in ("tls", "chain", "bulk", "pushat", "setat", "popat", "clear"):
             kinds.add(op[0])
     return Result(None, nt, ev + sorted(kinds), None)
 
 
 def SAMPLE(case):
-    return {"cfg": case["cfg"], "ops": case["ops"][:20] + (["..."] if len(case["ops"]) > 20 else [])}
+    return {"cfg": case["cfg"], "mode": case.get("mode", "thread"), "ops": case["ops"][:20] + (["..."] if len(case["ops"]) > 20 else [])}
 
 
 def extra_phase(ctx, tier, stats, sample_fn):
